@@ -105,6 +105,39 @@ func c12ExecutorReuse(r *rand.Rand, idx int) Case {
 		if !sawLog {
 			fail = append(fail, fmt.Sprintf("the rendered log message did not reach the listener: %v", evStrings(lst.evs)))
 		}
+		// a template operation whose rendered text the YAML parser rejects fails BEFORE anything is stored: what stood at its
+		// path stays, nothing after it runs
+		badYaml, e8 := specFromYaml("steps:\n  t:\n    order: 1\n    template:\n      template: \"a: [{{ .release.version }}, unclosed\"\n      parseAs: yaml\n      path: out\n  after:\n    order: 2\n    set:\n      data: {after: true}\n")
+		if e8 != nil {
+			fail = append(fail, fmt.Sprint("probe tree does not decode: ", e8))
+			return
+		}
+		for _, start := range []map[string]any{{"release": map[string]any{"version": "1"}}, {"release": map[string]any{"version": "1"}, "out": map[string]any{"kept": "yes"}}} {
+			d4 := anyToContainer(start)
+			if err := pipeline.New(pipeline.WithData(d4)).Execute(badYaml); err == nil {
+				fail = append(fail, "a template(parseAs yaml) operation whose text is no YAML succeeded")
+			}
+			if fin4 := nodeToAny(d4); !reflect.DeepEqual(fin4, any(start)) {
+				fail = append(fail, fmt.Sprintf("a failed template(parseAs yaml) operation left its mark on the data: %v (was %v)", fin4, start))
+			}
+		}
+		// extension actions given by two options are all there (the second option adds, it does not replace), and the
+		// maps stay the caller's
+		two, e9 := specFromYaml("steps:\n  a:\n    order: 1\n    ext:\n      func: first\n      args: {id: one}\n  b:\n    order: 2\n    ext:\n      func: second\n      args: {id: two}\n")
+		if e9 != nil {
+			fail = append(fail, fmt.Sprint("probe tree does not decode: ", e9))
+			return
+		}
+		l5 := &evListener{}
+		m1 := map[string]pipeline.ActionFactory{"first": &traceFactory{l: l5}}
+		m2 := map[string]pipeline.ActionFactory{"second": &traceFactory{l: l5}}
+		ex5 := pipeline.New(pipeline.WithListener(l5), pipeline.WithExtActions(m1), pipeline.WithExtActions(m2), pipeline.WithData(anyToContainer(map[string]any{})))
+		if err := ex5.Execute(two); err != nil {
+			fail = append(fail, fmt.Sprintf("extension actions registered by two WithExtActions options: the run fails with %v", err))
+		}
+		if len(m1) != 1 || len(m2) != 1 || m1["first"] == nil || m2["second"] == nil {
+			fail = append(fail, fmt.Sprintf("the maps given to WithExtActions were changed: %d and %d entries", len(m1), len(m2)))
+		}
 		d3 := anyToContainer(map[string]any{})
 		if err := pipeline.New(pipeline.WithData(d3)).Execute(calls); err != nil {
 			fail = append(fail, fmt.Sprint("define/call run failed: ", err))
